@@ -396,8 +396,11 @@ Round 6 also extended the models and proofs (builder sub-agents in private copie
 * C20 - the DQM `to_numpy_vectors` / `from_numpy_vectors` rebuild is the identity on invariant states (nothing lost, biases kept,
   energies kept), energies = case-level polynomial at the one-hot encoding; 'fixing = evaluating at the assignment' for
   `Expression::fix_variable` and the copying `fix_variables` path at index level.
-One further /repo repair came out of the round: `49abc6b` (`Initialized.parse_initial_states` raised on boolean SPIN initial
-states for a BINARY problem; found by the new all-ones unsigned / boolean initial-state stream of C07).
+Two further /repo repairs came out of the round: `49abc6b` (`Initialized.parse_initial_states` raised on boolean SPIN initial
+states for a BINARY problem; found by the new all-ones unsigned / boolean initial-state stream of C07) and `f2b686a`
+(`BinaryQuadraticModel(dtype=object).add_linear(<fresh label>, <bias that cannot be added>)` raised but left the variable behind
+without a linear entry, after which the model could not be read; found by the C20 Python-boundary catalogue when all 20 checks
+were re-run under `VERIF_SEED=1` at the end of the round - the seed `vp check` uses).
 """)
 t = open(os.path.join(ROOT, 'DESIGN.md')).read()
 i = t.find("\n### 10.2 ")
